@@ -27,6 +27,7 @@ def build():
     c_cropping_grow.install_sow3(R)
     c_cropping_grow.install_c04_lemma(R)
     c_cropping_progress.install(R)
+    c_cropping_progress.install_check_bad(R)
     c_cropping_progress.install_lemmas(R)
     c_fs.install(R)
     c_fs.install_c10(R)
